@@ -190,6 +190,12 @@ func VerifEntities() {
 		b = append([]byte("&#38;"), b...)
 	case 9:
 		b = append([]byte("&#x26;"), b...)
+	case 10: // an undecoded decimal reference (value >= 128, no ';') followed by more text
+		b = append([]byte("a&#200"), b...)
+	case 11: // decimal digits that overflow a machine word
+		b = append(append([]byte("&#1844674407370955168"), b...), ';')
+	case 12:
+		b = append(append([]byte("&#922337203685477580"), b...), ';')
 	}
 	n = len(b)
 	orig := append([]byte(nil), b...)
@@ -220,6 +226,9 @@ func VerifWSAndEntities() {
 	for i := range b {
 		c := b[i]
 		vAssume(c == '&' || c == '#' || c == ';' || c == '3' || c == '2' || c == 'l' || c == 't' || c == ' ' || c == '\n' || c == 'a')
+	}
+	if vParam("SK", 0) == 10 {
+		b = append([]byte("a&#200"), b...)
 	}
 	got := ReplaceMultipleWhitespaceAndEntities(append([]byte(nil), b...), vnEntities, vnRevEntities)
 	want := ReplaceEntities(ReplaceMultipleWhitespace(append([]byte(nil), b...)), vnEntities, vnRevEntities)
